@@ -56,7 +56,8 @@ def parseMember (s : String) : Option Member :=
   | _ => none
 
 def parsePolicy : String → Option Policy
-  | "none" => some .none | "bump" => some .bump | "same" => some .same | "lose" => some .lose | "sameeq" => some .sameEq | _ => none
+  | "none" => some .none | "bump" => some .bump | "same" => some .same | "lose" => some .lose | "sameeq" => some .sameEq
+  | "tie" => some .tie | _ => none
 
 def timerStr : Timer → String
   | .probe t => s!"probe {t}"
@@ -166,7 +167,8 @@ def parseHandler (s : String) : Option Handler :=
   | _ => none
 
 def parseCodec : String → Option Codec
-  | "fixed" => some fixedCodec | "postcard" => some postcardCodec | "bincode" => some bincodeCodec | _ => none
+  | "fixed" => some fixedCodec | "postcard" => some postcardCodec | "bincode" => some bincodeCodec
+  | "packed" => some packedCodec | _ => none
 
 /-! ### state printing -/
 
